@@ -44,7 +44,12 @@ ASSUMPTIONS = ['no real I/O or timer exists in the harness loop, so quiescent '
                'hang',
                'channel table and listener table are read from the private '
                'attributes _channels / _local_listeners / _remote_listeners',
-               'quiescence detection reads loop._ready and loop._scheduled']
+               'quiescence detection reads loop._ready and loop._scheduled',
+               'family x11 only (real loopback sockets, ordinary loop): the '
+               'deciding signals are an exception reaching the loop, owner '
+               'and session logs and the channel table; a wait_closed() that '
+               'has not returned 8 s after the connection was ended on '
+               '127.0.0.1 counts as hung']
 
 GRAMMAR_OK_AFTER_LOST = ()
 
